@@ -160,6 +160,15 @@ theorem first_batch_lost_without_repair :
     quiescent st = true ∧ proj 0 st.dest = [] ∧ (st.srcs 0).desc = none := by
   decide
 
+/-- **what the repairs do not cover** (the rest of F79's class): a FIRST notification that is still queued when the service
+stops — there is no descriptor yet, nothing to persist, nothing to catch up with; the later write defines a new start and the
+queued batch is never copied. Same run as `cex_notification_lost_at_shutdown`, here with all repairs on. -/
+theorem cex_queued_first_notification_still_lost :
+    let st := runR cfgNow repaired (init 1 (fun _ => true) (fun _ => prov0) (fun _ => true) false)
+      ([.create, .write 0 [evA], .enqueue 0, .shutdown, .halt, .restart, .write 0 [evB], .enqueue 0, .notify] ++ copyCycle)
+    quiescent st = true ∧ proj 0 st.dest = [addProv prov0 evB] ∧ (specProj st 0).length = 2 := by
+  decide
+
 /-- the schedule of `cex_first_notification_reordered` under the write lock: the second write is not enabled while the
 first is unpublished; the only schedules left publish in stored order, and the partition meets the specification -/
 theorem racing_first_writes_witness :
